@@ -281,6 +281,50 @@ theorem nonnegativeInt_exact (v : Nat) (hv : v < 2 ^ 64) {x : UInt8} {tl : VByte
   subst hres
   exact Wp.pure ⟨rfl, by simpa using a2.trans a3⟩
 
+/-- `uint` / `positive_int` in front of a byte that is not a digit: Fallthrough, nothing consumed. -/
+theorem uint_none {y : UInt8} {T : VBytes} (hr : lr.v.rest = y :: T) (hy : isDigit y = false) :
+    Wp E uint lr (fun r lr1 => r = none ∧ Adv lr 0 lr1) := by
+  have htw : lr.v.rest.takeWhile isDigit = [] := by rw [hr]; simp [List.takeWhile, hy]
+  unfold uint
+  have hx1 := C13.digits_exact u64Ty (by decide) lr.v 0
+  obtain ⟨_, hx2⟩ := digitsCont_spec u64Ty false lr.v 0 (some 0)
+  simp only [List.drop_zero, Nat.zero_add, htw, List.length_nil] at hx1 hx2
+  refine Wp.bind' (Wp.scanA (Adv.refl lr) (f := (Text.asciiDigits u64Ty · 0)) (k := 0)
+    (by simp only [Text.asciiDigits]; exact hx2) (by rw [hr]; simp)) ?_
+  intro r lr1 ⟨h1, a1, _, _, _⟩
+  simp only [hx1] at h1
+  subst h1
+  simp only [bne_self_eq_false, Bool.false_eq_true, ↓reduceIte]
+  exact Wp.pure ⟨rfl, a1⟩
+
+theorem positiveInt_none {y : UInt8} {T : VBytes} (hr : lr.v.rest = y :: T) (hy : isDigit y = false) :
+    Wp E positiveInt lr (fun r lr1 => r = none ∧ Adv lr 0 lr1) := by
+  unfold positiveInt
+  refine Wp.bind' (Wp.reqAtA (Adv.refl lr) (k := 0) (by rw [hr]; simp)) ?_
+  intro z lr1 ⟨hz, a1, r1, _, _⟩
+  have hz' : z = some y := by rw [hz, hr]; rfl
+  subst hz'
+  have hn48 : (some y == some (48 : UInt8)) = false := by
+    have : y ≠ 48 := by intro h; subst h; simp [isDigit] at hy
+    simpa using this
+  simp only [hn48, Bool.false_eq_true, ↓reduceIte]
+  refine Wp.bind' (Wp.setMarkA a1) ?_
+  intro _ lr2 ⟨a2, r2, _, _⟩
+  refine Wp.bind' (uint_none (by rw [r2, r1]; exact hr) hy) ?_
+  intro r lr3 ⟨hres, a3⟩
+  subst hres
+  exact Wp.pure ⟨rfl, by simpa using a2.trans a3⟩
+
+/-- The canonical text of a number starts with a digit. -/
+theorem natText_head (v : Nat) : ∃ d ds, natText v = d :: ds ∧ isDigit d = true := by
+  obtain ⟨hall, hne, _, _, _⟩ := natText_spec v
+  cases h : natText v with
+  | nil => exact absurd h hne
+  | cons d ds =>
+    rw [h] at hall
+    simp only [List.all_cons, Bool.and_eq_true] at hall
+    exact ⟨d, ds, rfl, hall.1⟩
+
 theorem orGiveUp_exact {α : Type} {p : PM (Option α)} {v : α} {m : Nat}
     (h : Wp E p lr (fun r lr1 => r = some v ∧ Adv lr m lr1)) :
     Wp E (orGiveUp p unexpected) lr (fun r lr1 => r = v ∧ Adv lr m lr1) := by
